@@ -258,3 +258,191 @@ Proof.
   cbn [fst snd]. rewrite (scan_split _ _ _ _ _ _ E2), split_found.
   destruct t; reflexivity.
 Qed.
+
+(* ---- the iterators --------------------------------------------------------------------- *)
+
+Definition str_next_result (r : option (option piece * list N * N * state)) : option (str_iter_st * option (list N)) :=
+  match r with Some (p, bs2, _, st) => Some (mkStrIt bs2 st, option_map p_bytes p) | None => None end.
+
+Definition bytes_next_result (r : option (option piece * list N * N * state * u8parser))
+  : option (bytes_iter_st * option (list N)) :=
+  match r with Some (p, bs2, _, st, u) => Some (mkBytesIt bs2 st u, option_map p_bytes p) | None => None end.
+
+Lemma g_stripped_str_next_eq it off :
+  g_stripped_str_next it = str_next_result (next_str (si_bytes it) off (si_state it)).
+Proof.
+  unfold g_stripped_str_next. rewrite (g_next_str_eq _ off).
+  destruct (next_str (si_bytes it) off (si_state it)) as [[[[p bs2] o2] st2]|]; reflexivity.
+Qed.
+
+Lemma g_strip_str_iter_next_eq it off :
+  g_strip_str_iter_next it = str_next_result (next_str (si_bytes it) off (si_state it)).
+Proof.
+  unfold g_strip_str_iter_next. rewrite (g_next_str_eq _ off).
+  destruct (next_str (si_bytes it) off (si_state it)) as [[[[p bs2] o2] st2]|]; reflexivity.
+Qed.
+
+Lemma g_stripped_bytes_next_eq it off :
+  g_stripped_bytes_next it = bytes_next_result (next_bytes (bi_bytes it) off (bi_state it) (bi_utf8 it)).
+Proof.
+  unfold g_stripped_bytes_next. rewrite (g_next_bytes_eq _ off).
+  destruct (next_bytes (bi_bytes it) off (bi_state it) (bi_utf8 it)) as [[[[[p bs2] o2] st2] u2]|]; reflexivity.
+Qed.
+
+Lemma g_strip_bytes_iter_next_eq it off :
+  g_strip_bytes_iter_next it = bytes_next_result (next_bytes (bi_bytes it) off (bi_state it) (bi_utf8 it)).
+Proof.
+  unfold g_strip_bytes_iter_next. rewrite (g_next_bytes_eq _ off).
+  destruct (next_bytes (bi_bytes it) off (bi_state it) (bi_utf8 it)) as [[[[[p bs2] o2] st2] u2]|]; reflexivity.
+Qed.
+
+Lemma g_strip_str_eq bs : g_strip_str bs = mkStrIt bs Ground.
+Proof. reflexivity. Qed.
+
+Lemma g_strip_bytes_eq bs : g_strip_bytes bs = mkBytesIt bs Ground u8_new.
+Proof. reflexivity. Qed.
+
+(* draining an iterator (`for printable in it`), keeping the iterator it leaves behind;
+   Model/Imp.v's iter_drain -- what the translated `for` loops use -- forgets it *)
+Fixpoint drain_st {I A : Type} (next : I -> option (I * option A)) (fuel : nat) (it : I) : option (list A * I) :=
+  match fuel with
+  | O => None
+  | S f =>
+      match next it with
+      | None => None
+      | Some (it', None) => Some ([], it')
+      | Some (it', Some x) =>
+          match drain_st next f it' with
+          | Some (xs, it'') => Some (x :: xs, it'')
+          | None => None
+          end
+      end
+  end.
+
+Lemma iter_drain_st {I A} (next : I -> option (I * option A)) fuel : forall it,
+  iter_drain next fuel it = option_map fst (drain_st next fuel it).
+Proof.
+  induction fuel as [|f IH]; intros it; cbn [iter_drain drain_st]; [reflexivity|].
+  destruct (next it) as [[it' [x|]]|]; try reflexivity.
+  rewrite IH. destruct (drain_st next f it') as [[xs it'']|]; reflexivity.
+Qed.
+
+Lemma drain_st_ext {I A} (n1 n2 : I -> option (I * option A)) :
+  (forall it, n1 it = n2 it) -> forall fuel it, drain_st n1 fuel it = drain_st n2 fuel it.
+Proof.
+  intros H fuel. induction fuel as [|f IH]; intros it; cbn [drain_st]; [reflexivity|].
+  rewrite H. destruct (n2 it) as [[it' [x|]]|]; try reflexivity. rewrite IH. reflexivity.
+Qed.
+
+Lemma str_drain_eq fuel : forall it off,
+  drain_st g_stripped_str_next fuel it =
+  match str_iter fuel (si_bytes it) off (si_state it) with
+  | Some (ps, bs', st') => Some (map p_bytes ps, mkStrIt bs' st')
+  | None => None
+  end.
+Proof.
+  induction fuel as [|f IH]; intros it off; cbn [drain_st str_iter]; [reflexivity|].
+  rewrite (g_stripped_str_next_eq it off).
+  destruct (next_str (si_bytes it) off (si_state it)) as [[[[[pc|] bs2] o2] st2]|]; cbn [str_next_result option_map]; try reflexivity.
+  rewrite (IH _ o2). cbn [si_bytes si_state].
+  destruct (str_iter f bs2 o2 st2) as [[[ps bs3] st3]|]; reflexivity.
+Qed.
+
+Lemma bytes_drain_eq fuel : forall it off,
+  drain_st g_stripped_bytes_next fuel it =
+  match bytes_iter fuel (bi_bytes it) off (bi_state it) (bi_utf8 it) with
+  | Some (ps, bs', st', u') => Some (map p_bytes ps, mkBytesIt bs' st' u')
+  | None => None
+  end.
+Proof.
+  induction fuel as [|f IH]; intros it off; cbn [drain_st bytes_iter]; [reflexivity|].
+  rewrite (g_stripped_bytes_next_eq it off).
+  destruct (next_bytes (bi_bytes it) off (bi_state it) (bi_utf8 it)) as [[[[[[pc|] bs2] o2] st2] u2]|];
+    cbn [bytes_next_result option_map]; try reflexivity.
+  rewrite (IH _ o2). cbn [bi_bytes bi_state bi_utf8].
+  destruct (bytes_iter f bs2 o2 st2 u2) as [[[[ps bs3] st3] u3]|]; reflexivity.
+Qed.
+
+(* ---- the entry points ------------------------------------------------------------------ *)
+
+Lemma for_append (l : list (list N)) : forall acc0,
+  for_list0 (fun x acc1 => Some (BNext (acc1 ++ x))) l acc0 = Some (acc0 ++ concat l).
+Proof.
+  induction l as [|x t IH]; intros acc0; cbn [for_list0 concat].
+  - rewrite app_nil_r. reflexivity.
+  - rewrite IH, app_assoc. reflexivity.
+Qed.
+
+(* strip_bytes(data).into_vec(), all of it translated *)
+Theorem g_strip_bytes_into_vec_is_model bs :
+  g_stripped_bytes_into_vec (g_strip_bytes bs) = strip_bytes_model bs.
+Proof.
+  unfold g_stripped_bytes_into_vec, strip_bytes_model, strip_bytes_pieces, strip_next_bytes.
+  rewrite g_strip_bytes_eq, iter_drain_st, (bytes_drain_eq _ _ 0). cbn [bi_bytes bi_state bi_utf8].
+  destruct (bytes_iter (S (length bs)) bs 0 Ground u8_new) as [[[[ps bs'] st'] u']|]; cbn [option_map fst]; [|reflexivity].
+  rewrite for_append. reflexivity.
+Qed.
+
+(* strip_str(data).to_string(): `fmt` / `to_string` are std::fmt plumbing (pinned); what they do
+   with the translated iterator -- drain it and concatenate -- is written out here *)
+Definition g_strip_str_to_string (bs : list N) : option (list N) :=
+  ps <- iter_drain g_stripped_str_next (S (length bs)) (g_strip_str bs) ;; Some (concat ps).
+
+Theorem g_strip_str_to_string_is_model bs : g_strip_str_to_string bs = strip_str_model bs.
+Proof.
+  unfold g_strip_str_to_string, strip_str_model, strip_str_pieces, strip_next_str.
+  rewrite g_strip_str_eq, iter_drain_st, (str_drain_eq _ _ 0). cbn [si_bytes si_state].
+  destruct (str_iter (S (length bs)) bs 0 Ground) as [[[ps bs'] st']|]; reflexivity.
+Qed.
+
+(* StripStr / StripBytes fed chunk by chunk: `strip_next` (pinned) hands the iterator a
+   borrow of the carried state, i.e. the state is copied in and what the drained iterator
+   leaves is copied out *)
+Fixpoint g_str_chunks (chunks : list (list N)) (st : state) : option (list (list (list N)) * state) :=
+  match chunks with
+  | [] => Some ([], st)
+  | c :: rest =>
+      '(ps, it') <- drain_st g_strip_str_iter_next (S (length c)) (mkStrIt c st) ;;
+      '(pss, st'') <- g_str_chunks rest (si_state it') ;;
+      Some (ps :: pss, st'')
+  end.
+
+Fixpoint g_bytes_chunks (chunks : list (list N)) (st : state) (u : u8parser)
+  : option (list (list (list N)) * state * u8parser) :=
+  match chunks with
+  | [] => Some ([], st, u)
+  | c :: rest =>
+      '(ps, it') <- drain_st g_strip_bytes_iter_next (S (length c)) (mkBytesIt c st u) ;;
+      '(pss, st'', u'') <- g_bytes_chunks rest (bi_state it') (bi_utf8 it') ;;
+      Some (ps :: pss, st'', u'')
+  end.
+
+Theorem g_str_chunks_is_model chunks : forall st,
+  g_str_chunks chunks st =
+  match strip_str_chunks chunks st with
+  | Some (pss, st') => Some (map (map p_bytes) pss, st')
+  | None => None
+  end.
+Proof.
+  induction chunks as [|c rest IH]; intros st; cbn [g_str_chunks strip_str_chunks]; [reflexivity|].
+  rewrite (drain_st_ext g_strip_str_iter_next g_stripped_str_next).
+  2:{ intros it. rewrite (g_strip_str_iter_next_eq it 0), (g_stripped_str_next_eq it 0). reflexivity. }
+  unfold strip_next_str. rewrite (str_drain_eq _ _ 0). cbn [si_bytes si_state].
+  destruct (str_iter (S (length c)) c 0 st) as [[[ps bs'] st']|]; [|reflexivity].
+  cbn [si_state]. rewrite IH. destruct (strip_str_chunks rest st') as [[pss st'']|]; reflexivity.
+Qed.
+
+Theorem g_bytes_chunks_is_model chunks : forall st u,
+  g_bytes_chunks chunks st u =
+  match strip_bytes_chunks chunks st u with
+  | Some (pss, st', u') => Some (map (map p_bytes) pss, st', u')
+  | None => None
+  end.
+Proof.
+  induction chunks as [|c rest IH]; intros st u; cbn [g_bytes_chunks strip_bytes_chunks]; [reflexivity|].
+  rewrite (drain_st_ext g_strip_bytes_iter_next g_stripped_bytes_next).
+  2:{ intros it. rewrite (g_strip_bytes_iter_next_eq it 0), (g_stripped_bytes_next_eq it 0). reflexivity. }
+  unfold strip_next_bytes. rewrite (bytes_drain_eq _ _ 0). cbn [bi_bytes bi_state bi_utf8].
+  destruct (bytes_iter (S (length c)) c 0 st u) as [[[[ps bs'] st'] u']|]; [|reflexivity].
+  cbn [bi_state bi_utf8]. rewrite IH. destruct (strip_bytes_chunks rest st' u') as [[[pss st''] u'']|]; reflexivity.
+Qed.
